@@ -1,5 +1,6 @@
 import YaqsModel.Lemmas.Mps
 import YaqsModel.Lemmas.MpsBridge
+import YaqsModel.Lemmas.MpsBridgeSvd
 
 /-!
 # C10 — canonicalisation and gauge moves never change the represented state
@@ -623,3 +624,424 @@ example : wellShapedChain 2 [exT1, exT0] = false ∧ cfgOK [exT0, exT1] [2, 0] =
   refine ⟨by decide +kernel, by decide +kernel, by decide +kernel⟩
 
 end Yaqs.Mps
+
+/-! ## the rest of the executable list model: SVD shift, last-site QR, Gram tests, `truncate`
+
+`Lemmas/MpsBridgeSvd.lean` extends the bridge to every remaining definition of `Model/Mps.lean` that the driver runs against
+the real code: `thetaMat`, `twoSiteSVD` / `shiftRightSVD` (with the rank rule `Yaqs.Rank.keepTwoSite` of C09),
+`shiftRightQRLast`, `gramLeft` / `gramRight` / `isLeftIso` / `isRightIso` / `checkCanonicalOf`, `truncateEv` (and the new
+`truncateBonds` of `Model/MpsBonds.lean`).  The SVD enters as its spec on lists, `matMul u (diagMulRows s v) = thetaMat a b`
+(`u · diag(s) · v = θ` entrywise, spec-tied on every call of `two_site_svd`), together with the decidable shape predicate
+`svdShaped` (what `robust_svd(theta, full_matrices=False)` returns). -/
+
+namespace Yaqs.Mps
+
+open scoped Matrix
+
+/-- **C10.21 (`thetaMat` is the merged two-site matrix)** step 1–2 of `two_site_svd`
+    (`np.tensordot(a, b, axes=(2, 1)).reshape(phys_i·left, phys_j·right)`): for well-shaped tensors the executable
+    `thetaMat a b` has `phys_i·left` rows of length `phys_j·right`, and its entry `[(s·left + l), (t·right + r)]` is
+    `Σ_k a[s][l][k] · b[t][k][r]` (the sum over any range that covers the shared bond). -/
+theorem c10_exec_theta (a b : Tensor) (ha : wellShaped a = true) (hb : wellShaped b = true) :
+    (thetaMat a b).length = a.length * leftDim a ∧ (∀ row ∈ thetaMat a b, row.length = b.length * rightDim b) ∧
+      ∀ s l t r n, s < a.length → l < leftDim a → t < b.length → r < rightDim b → min (rightDim a) (leftDim b) ≤ n →
+        entry (thetaMat a b) (s * leftDim a + l) (t * rightDim b + r) =
+          ∑ k ∈ Finset.range n, entry (a.getD s []) l k * entry (b.getD t []) k r :=
+  ⟨(thetaMat_shape a b ha hb).1, (thetaMat_shape a b ha hb).2,
+    fun s l t r n hs hl ht hr hn => entry_thetaMat a b ha hb s l t r hs hl ht hr n hn⟩
+
+/-- **C10.21b (Matrix reading of `thetaMat`)** the two-site block `A s * B t` of the padded matrices (the object of
+    C10.1/C10.2) is `thetaMat`, entry by entry, and vanishes outside the frame of the two tensors. -/
+theorem c10_exec_theta_block (n : Nat) (a b : Tensor) (ha : wellShaped a = true) (hb : wellShaped b = true)
+    (hra : rightDim a ≤ n) (s t : Nat) (i j : Fin n) :
+    (toSite n a s * toSite n b t) i j =
+      if s < a.length ∧ i.val < leftDim a ∧ t < b.length ∧ j.val < rightDim b then
+        entry (thetaMat a b) (s * leftDim a + i.val) (t * rightDim b + j.val) else 0 :=
+  block_entry n a b ha hb hra s t i j
+
+/-- the merged matrix of a concrete pair: shape (3,1,3) · (3,3,1), a 3 × 3 matrix -/
+def exSa : Tensor := [[[⟨2/3, 0⟩, ⟨-2/3, 2/3⟩, ⟨-1/15, 0⟩]], [[⟨1/3, 0⟩, ⟨-1/3, 4/3⟩, ⟨1/15, 0⟩]],
+  [[⟨-2/3, 0⟩, ⟨2/3, 4/3⟩, ⟨-1/30, 0⟩]]]
+def exSb : Tensor := [[[⟨1, 0⟩], [⟨0, 0⟩], [⟨0, 0⟩]], [[⟨1, 0⟩], [⟨1, 0⟩], [⟨0, 0⟩]], [[⟨0, 0⟩], [⟨0, 0⟩], [⟨1, 0⟩]]]
+/-- SVD factors of `thetaMat exSa exSb` over ℚ(i): `exSu` orthogonal, `exSv` a signed / phased permutation -/
+def exSu : Mat := [[⟨1/3, 0⟩, ⟨2/3, 0⟩, ⟨2/3, 0⟩], [⟨2/3, 0⟩, ⟨1/3, 0⟩, ⟨-2/3, 0⟩], [⟨2/3, 0⟩, ⟨-2/3, 0⟩, ⟨1/3, 0⟩]]
+def exSs : List Rat := [2, 1, 1/10]
+def exSv : Mat := [[⟨0, 0⟩, ⟨0, 1⟩, ⟨0, 0⟩], [⟨1, 0⟩, ⟨0, 0⟩, ⟨0, 0⟩], [⟨0, 0⟩, ⟨0, 0⟩, ⟨-1, 0⟩]]
+
+example : wellShaped exSa = true ∧ wellShaped exSb = true ∧
+    thetaMat exSa exSb = [[⟨2/3, 0⟩, ⟨0, 2/3⟩, ⟨-1/15, 0⟩], [⟨1/3, 0⟩, ⟨0, 4/3⟩, ⟨1/15, 0⟩], [⟨-2/3, 0⟩, ⟨0, 4/3⟩, ⟨-1/30, 0⟩]] ∧
+    matMul exSu (diagMulRows exSs exSv) = thetaMat exSa exSb := by
+  refine ⟨by decide +kernel, by decide +kernel, by decide +kernel, by decide +kernel⟩
+
+/-- **C10.22 (executable two-site replacement)** the list-model form of the lemma behind C10.1/C10.2/C10.4b: inside any
+    well-shaped chain, a pair `(a', b')` with the frame of `(a, b)` (`sameFrame`: same physical dimensions and outer
+    bonds, a common inner bond `≤ n`) and the same merged matrix `thetaMat` gives a well-shaped chain with the same
+    amplitudes and the same dense vector.  QR shift, SVD shift and every other exact two-site move are instances. -/
+theorem c10_exec_two_site_replace (n : Nat) (hn : 0 < n) (pre post : List Tensor) (a b a' b' : Tensor)
+    (hws : wellShapedChain n (pre ++ a :: b :: post) = true) (hf : sameFrame n a b a' b' = true)
+    (hθ : thetaMat a' b' = thetaMat a b) :
+    wellShapedChain n (pre ++ a' :: b' :: post) = true ∧
+      (∀ cfg, cfgOK (pre ++ a :: b :: post) cfg = true →
+        amp (pre ++ a' :: b' :: post) cfg = amp (pre ++ a :: b :: post) cfg) ∧
+      toVec (pre ++ a' :: b' :: post) = toVec (pre ++ a :: b :: post) :=
+  ⟨replace2_wellShapedChain n pre post a b a' b' hws hf,
+    fun cfg hcfg => amp_replace2 n hn pre post a b a' b' hws hf hθ cfg hcfg,
+    toVec_replace2 n hn pre post a b a' b' hws hf hθ⟩
+
+/-- **C10.23 (what the executable SVD shift returns, for every kept rank)** steps 5–6 of `two_site_svd`
+    (`u[:, :keep].reshape(phys_i, left, keep)`, `(diag(s[:keep]) @ v[:keep]).reshape(keep, phys_j, right).transpose(1,0,2)`):
+    for SVD factors of the right shapes and any `1 ≤ keep ≤ len(s)` the new pair has the frame of the old pair with
+    inner bond `keep`, and its merged matrix is the truncated product `u[:, :keep] · (diag(s) v)[:keep, :]`.
+    In particular this holds for the rank `keepTwoSite s thr none` that `shiftRightSVD` uses. -/
+theorem c10_exec_svd_block (n : Nat) (a b : Tensor) (u : Mat) (s : List Rat) (v : Mat) (keep : Nat)
+    (ha : wellShaped a = true) (hb : wellShaped b = true) (hsh : svdShaped n a b u s v keep = true) :
+    sameFrame n a b (twoSiteSVD a b u s v keep).1 (twoSiteSVD a b u s v keep).2 = true ∧
+      rightDim (twoSiteSVD a b u s v keep).1 = keep ∧ leftDim (twoSiteSVD a b u s v keep).2 = keep ∧
+      thetaMat (twoSiteSVD a b u s v keep).1 (twoSiteSVD a b u s v keep).2 =
+        matMul (u.map (fun row => row.take keep)) ((diagMulRows s v).take keep) :=
+  ⟨(twoSiteSVD_frame n a b u s v keep ha hb hsh).1, (twoSiteSVD_frame n a b u s v keep ha hb hsh).2.1,
+    (twoSiteSVD_frame n a b u s v keep ha hb hsh).2.2, thetaMat_twoSiteSVD n a b u s v keep ha hb hsh⟩
+
+/-- **C10.23b** the call made by the centre shift: `shiftRightSVD` is `twoSiteSVD` at the rank `keepTwoSite s thr none`
+    of C09.4 (`two_site_svd(a, b, threshold, max_bond_dim=None)`), so C10.23 applies with that `keep`. -/
+theorem c10_exec_shiftRightSVD_unfold (a b : Tensor) (u : Mat) (s : List Rat) (v : Mat) (thr : Rat) :
+    shiftRightSVD a b u s v thr = twoSiteSVD a b u s v (Yaqs.Rank.keepTwoSite s thr none) := rfl
+
+/-- **C10.24 (executable SVD shift, nothing discarded)** for a well-shaped chain, SVD factors of the right shapes with
+    `u · diag(s) · v = thetaMat a b` entrywise (the spec of the SVD, spec-tied on every run) and a rank rule that keeps
+    every singular value (`keepTwoSite s thr none = s.length`), the executable `shiftRightSVD` leaves every amplitude of
+    the list model unchanged — at every position of every chain — and the chain stays well-shaped.
+    Proof: C10.23 with `keep = len(s)` gives the merged matrix of the old pair, then C10.22. -/
+theorem c10_exec_svd_shift_preserves_amp (n : Nat) (hn : 0 < n) (pre post : List Tensor) (a b : Tensor) (u : Mat)
+    (s : List Rat) (v : Mat) (thr : Rat) (hws : wellShapedChain n (pre ++ a :: b :: post) = true)
+    (hsh : svdShaped n a b u s v s.length = true) (hspec : matMul u (diagMulRows s v) = thetaMat a b)
+    (hkeep : Yaqs.Rank.keepTwoSite s thr none = s.length) (cfg : List Nat)
+    (hcfg : cfgOK (pre ++ a :: b :: post) cfg = true) :
+    amp (pre ++ (shiftRightSVD a b u s v thr).1 :: (shiftRightSVD a b u s v thr).2 :: post) cfg =
+      amp (pre ++ a :: b :: post) cfg := by
+  obtain ⟨hall, -⟩ := (wellShapedChain_iff n _).mp hws
+  have ha := (hall a (by simp)).1
+  have hb := (hall b (by simp)).1
+  rw [c10_exec_shiftRightSVD_unfold, hkeep]
+  exact (c10_exec_two_site_replace n hn pre post a b _ _ hws (twoSiteSVD_frame n a b u s v s.length ha hb hsh).1
+    (thetaMat_twoSiteSVD_full n a b u s v ha hb hsh hspec)).2.1 cfg hcfg
+
+/-- **C10.24b** the same for the whole dense vector `toVec` (`MPS.to_vec`), and well-shapedness of the result -/
+theorem c10_exec_svd_shift_preserves_toVec (n : Nat) (hn : 0 < n) (pre post : List Tensor) (a b : Tensor) (u : Mat)
+    (s : List Rat) (v : Mat) (thr : Rat) (hws : wellShapedChain n (pre ++ a :: b :: post) = true)
+    (hsh : svdShaped n a b u s v s.length = true) (hspec : matMul u (diagMulRows s v) = thetaMat a b)
+    (hkeep : Yaqs.Rank.keepTwoSite s thr none = s.length) :
+    toVec (pre ++ (shiftRightSVD a b u s v thr).1 :: (shiftRightSVD a b u s v thr).2 :: post) =
+        toVec (pre ++ a :: b :: post) ∧
+      wellShapedChain n (pre ++ (shiftRightSVD a b u s v thr).1 :: (shiftRightSVD a b u s v thr).2 :: post) = true := by
+  obtain ⟨hall, -⟩ := (wellShapedChain_iff n _).mp hws
+  have ha := (hall a (by simp)).1
+  have hb := (hall b (by simp)).1
+  rw [c10_exec_shiftRightSVD_unfold, hkeep]
+  have h := c10_exec_two_site_replace n hn pre post a b _ _ hws (twoSiteSVD_frame n a b u s v s.length ha hb hsh).1
+    (thetaMat_twoSiteSVD_full n a b u s v ha hb hsh hspec)
+  exact ⟨h.2.2, h.1⟩
+
+/-- **C10.24c (truncating SVD shift: shapes)** whatever rank `keep = keepTwoSite s thr none` the rule selects (as long as
+    `1 ≤ keep ≤ len(s)` and it fits the bond bound), the chain after the executable `shiftRightSVD` is well-shaped, its
+    physical dimensions are unchanged and the new bond has dimension `keep`. -/
+theorem c10_exec_svd_shift_shape (n : Nat) (pre post : List Tensor) (a b : Tensor) (u : Mat) (s : List Rat) (v : Mat)
+    (thr : Rat) (hws : wellShapedChain n (pre ++ a :: b :: post) = true)
+    (hsh : svdShaped n a b u s v (Yaqs.Rank.keepTwoSite s thr none) = true) :
+    wellShapedChain n (pre ++ (shiftRightSVD a b u s v thr).1 :: (shiftRightSVD a b u s v thr).2 :: post) = true ∧
+      rightDim (shiftRightSVD a b u s v thr).1 = Yaqs.Rank.keepTwoSite s thr none ∧
+      (pre ++ (shiftRightSVD a b u s v thr).1 :: (shiftRightSVD a b u s v thr).2 :: post).map physDim =
+        (pre ++ a :: b :: post).map physDim := by
+  obtain ⟨hall, -⟩ := (wellShapedChain_iff n _).mp hws
+  have ha := (hall a (by simp)).1
+  have hb := (hall b (by simp)).1
+  obtain ⟨hf, hr, -⟩ := twoSiteSVD_frame n a b u s v _ ha hb hsh
+  obtain ⟨_, _, h1, h2, -⟩ := (sameFrame_iff n a b _ _).mp hf
+  exact ⟨replace2_wellShapedChain n pre post a b _ _ hws hf, hr, physDim_replace2 pre post a b _ _ h1 h2⟩
+
+/-- **C10.24d (truncating SVD shift: what changes)** the list-model form of C10.2b / C09.6.  Read `u`, `v` as rectangular
+    matrices `U : R × k`, `V : k × C` (`toRect`); from the SVD spec (`u · diag(s) · v = thetaMat a b`, `UᴴU = 1`,
+    `VVᴴ = 1`) the merged matrix of the new pair differs from the old one by exactly the discarded weight:
+    `‖θ(a,b) − θ(a',b')‖²_F = Σ_{x ≥ keep} s_x² = tailWeight s keep` — and for the rank `keepTwoSite s thr none` of the
+    centre shift that weight is `< thr` (C09.4).  So the SVD shift is a gauge move up to an *absolute* error `thr = 1e-12`
+    in the two-site block: known finding `C10:svd-shift-absolute-threshold`. -/
+theorem c10_exec_svd_truncation_error (n : Nat) (a b : Tensor) (u : Mat) (s : List Rat) (v : Mat) (keep : Nat)
+    (ha : wellShaped a = true) (hb : wellShaped b = true) (hsh : svdShaped n a b u s v keep = true)
+    (hspec : matMul u (diagMulRows s v) = thetaMat a b)
+    (hU : (toRect u.length s.length u)ᴴ * toRect u.length s.length u = 1)
+    (hV : toRect s.length (b.length * rightDim b) v * (toRect s.length (b.length * rightDim b) v)ᴴ = 1) :
+    Yaqs.Split.frobSq (toRect u.length (b.length * rightDim b) (thetaMat a b) -
+        toRect u.length (b.length * rightDim b)
+          (thetaMat (twoSiteSVD a b u s v keep).1 (twoSiteSVD a b u s v keep).2)) =
+      CRat.ofRat (Yaqs.Rank.tailWeight s keep) := by
+  rw [twoSiteSVD_frob n a b u s v keep ha hb hsh hspec hU hV, sum_dropped_eq_tailWeight]
+
+theorem c10_exec_svd_shift_error_below_threshold (n : Nat) (a b : Tensor) (u : Mat) (s : List Rat) (v : Mat) (thr : Rat)
+    (h0 : 0 < thr) (ha : wellShaped a = true) (hb : wellShaped b = true)
+    (hsh : svdShaped n a b u s v (Yaqs.Rank.keepTwoSite s thr none) = true)
+    (hspec : matMul u (diagMulRows s v) = thetaMat a b)
+    (hU : (toRect u.length s.length u)ᴴ * toRect u.length s.length u = 1)
+    (hV : toRect s.length (b.length * rightDim b) v * (toRect s.length (b.length * rightDim b) v)ᴴ = 1) :
+    ∃ w : Rat, w < thr ∧ 0 ≤ w ∧
+      Yaqs.Split.frobSq (toRect u.length (b.length * rightDim b) (thetaMat a b) -
+        toRect u.length (b.length * rightDim b)
+          (thetaMat (shiftRightSVD a b u s v thr).1 (shiftRightSVD a b u s v thr).2)) = CRat.ofRat w :=
+  ⟨Yaqs.Rank.tailWeight s (Yaqs.Rank.keepTwoSite s thr none), Yaqs.Rank.c09_twosite_weight s thr h0,
+    Yaqs.Rank.sqsum_nonneg _,
+    c10_exec_svd_truncation_error n a b u s v _ ha hb hsh hspec hU hV⟩
+
+/-- non-vacuity of C10.23–C10.24d on the rational pair above (physical dimension 3, chain of two sites, bonds 1-3-1):
+    with threshold `1/200` nothing is discarded and the amplitudes are unchanged; with threshold `1/50` the rule keeps
+    2 of the 3 singular values, the chain stays well-shaped with bond 2, an amplitude really changes, and the
+    isometry hypotheses of C10.24d hold for the factors. -/
+example : wellShapedChain 3 ([] ++ exSa :: exSb :: []) = true ∧ svdShaped 3 exSa exSb exSu exSs exSv exSs.length = true ∧
+    matMul exSu (diagMulRows exSs exSv) = thetaMat exSa exSb ∧
+    Yaqs.Rank.keepTwoSite exSs (1/200) none = exSs.length ∧ cfgOK ([] ++ exSa :: exSb :: []) [2, 1] = true ∧
+    amp [(shiftRightSVD exSa exSb exSu exSs exSv (1/200)).1, (shiftRightSVD exSa exSb exSu exSs exSv (1/200)).2] [2, 1]
+      = some ⟨0, 4/3⟩ ∧ amp [exSa, exSb] [2, 1] = some ⟨0, 4/3⟩ := by
+  refine ⟨by decide +kernel, by decide +kernel, by decide +kernel, by decide +kernel, by decide +kernel,
+    by decide +kernel, by decide +kernel⟩
+
+example : Yaqs.Rank.keepTwoSite exSs (1/50) none = 2 ∧ svdShaped 3 exSa exSb exSu exSs exSv 2 = true ∧
+    wellShapedChain 3 [(shiftRightSVD exSa exSb exSu exSs exSv (1/50)).1, (shiftRightSVD exSa exSb exSu exSs exSv (1/50)).2]
+      = true ∧
+    rightDim (shiftRightSVD exSa exSb exSu exSs exSv (1/50)).1 = 2 ∧
+    amp [(shiftRightSVD exSa exSb exSu exSs exSv (1/50)).1, (shiftRightSVD exSa exSb exSu exSs exSv (1/50)).2] [2, 2]
+      = some ⟨0, 0⟩ ∧ amp [exSa, exSb] [2, 2] = some ⟨-1/30, 0⟩ ∧ Yaqs.Rank.tailWeight exSs 2 = 1/100 := by
+  refine ⟨by decide +kernel, by decide +kernel, by decide +kernel, by decide +kernel, by decide +kernel,
+    by decide +kernel, by decide +kernel⟩
+
+example : (toRect 3 3 exSu)ᴴ * toRect 3 3 exSu = 1 ∧ toRect 3 3 exSv * (toRect 3 3 exSv)ᴴ = 1 := by
+  constructor <;> decide +kernel
+
+/-- C10.22 / C10.23 on the same pair: the untruncated new pair has the frame and the merged matrix of the old one; the
+    truncated one (keep 2) has the frame but another merged matrix, whose distance is the discarded weight `(1/10)²` -/
+example : sameFrame 3 exSa exSb (twoSiteSVD exSa exSb exSu exSs exSv 3).1 (twoSiteSVD exSa exSb exSu exSs exSv 3).2 = true ∧
+    thetaMat (twoSiteSVD exSa exSb exSu exSs exSv 3).1 (twoSiteSVD exSa exSb exSu exSs exSv 3).2 = thetaMat exSa exSb ∧
+    sameFrame 3 exSa exSb (twoSiteSVD exSa exSb exSu exSs exSv 2).1 (twoSiteSVD exSa exSb exSu exSs exSv 2).2 = true ∧
+    thetaMat (twoSiteSVD exSa exSb exSu exSs exSv 2).1 (twoSiteSVD exSa exSb exSu exSs exSv 2).2 ≠ thetaMat exSa exSb ∧
+    Yaqs.Split.frobSq (toRect 3 3 (thetaMat exSa exSb) -
+      toRect 3 3 (thetaMat (twoSiteSVD exSa exSb exSu exSs exSv 2).1 (twoSiteSVD exSa exSb exSu exSs exSv 2).2))
+        = CRat.ofRat (1/100) := by
+  refine ⟨by decide +kernel, by decide +kernel, by decide +kernel, by decide +kernel, by decide +kernel⟩
+
+end Yaqs.Mps
+
+namespace Yaqs.Mps
+
+open scoped Matrix
+
+/-- **C10.25 (executable QR shift at the last site: `R` is thrown away)** `shift_orthogonality_center_right(L-1)` /
+    the last step of `normalize`: with `A = Q·R` entrywise at the last site of a well-shaped chain (`R` is then `1 × 1`:
+    `r.length = 1`, and its rows have the length `rightDim a = 1`), the chain with `a` replaced by
+    `shiftRightQRLast a q` is well-shaped and every old amplitude is the new amplitude times the number `r₀₀` —
+    normalisation only rescales.  Proof: bridge, C10.8's `last_site_factor`, then C10.8c. -/
+theorem c10_exec_qr_last (n : Nat) (hn : 0 < n) (pre : List Tensor) (a : Tensor) (q r : Mat)
+    (hws : wellShapedChain n (pre ++ [a]) = true) (hqs : qrShaped n a q r = true) (hr1 : r.length = 1)
+    (hqr : matMul q r = flattenRows a) (cfg : List Nat) (hcfg : cfgOK (pre ++ [a]) cfg = true) :
+    wellShapedChain n (pre ++ [shiftRightQRLast a q]) = true ∧
+      ∃ x, amp (pre ++ [shiftRightQRLast a q]) cfg = some x ∧ amp (pre ++ [a]) cfg = some (x * entry r 0 0) := by
+  obtain ⟨hws', hcfg', hch⟩ := qrLast_chain n pre a q r hws hqs hr1 hqr cfg hcfg
+  refine ⟨hws', _, amp_eq_chain n hn _ cfg hws' hcfg', ?_⟩
+  rw [amp_eq_chain n hn _ cfg hws hcfg, hch,
+    Alg.c10_dropped_R_is_a_scalar _ (toMat n r) ⟨0, hn⟩ ⟨0, hn⟩ (fun j hj => ?_)]
+  · rfl
+  · have : 1 ≤ j.val := by
+      rcases j with ⟨j, hjn⟩
+      cases j with
+      | zero => exact absurd rfl hj
+      | succ j => simp
+    rw [toMat_apply, entry_of_le_rows r _ _ (by omega)]
+
+/-- a last site `(2,2,1)` with `flatten = exLq · exLr`, `exLr` the `1 × 1` matrix `(2 + i)` -/
+def exLa : Tensor := [[[⟨2, 1⟩], [⟨4, 2⟩]], [[⟨0, 0⟩], [⟨-1, 2⟩]]]
+def exLq : Mat := [[⟨1, 0⟩], [⟨2, 0⟩], [⟨0, 0⟩], [⟨0, 1⟩]]
+def exLr : Mat := [[⟨2, 1⟩]]
+
+example : wellShapedChain 2 ([exT0] ++ [exLa]) = true ∧ qrShaped 2 exLa exLq exLr = true ∧ exLr.length = 1 ∧
+    matMul exLq exLr = flattenRows exLa ∧ cfgOK ([exT0] ++ [exLa]) [1, 1] = true ∧
+    amp [exT0, shiftRightQRLast exLa exLq] [1, 1] = some ⟨0, 3⟩ ∧
+    amp [exT0, exLa] [1, 1] = some (⟨0, 3⟩ * entry exLr 0 0) := by
+  refine ⟨by decide +kernel, by decide +kernel, by decide +kernel, by decide +kernel, by decide +kernel,
+    by decide +kernel, by decide +kernel⟩
+
+/-- **C10.26 (`gramLeft`, `gramRight` are the Gram matrices of the Matrix reading)** the two contractions of
+    `check_canonical_form` (`"ijk, ijl->kl"` on `conj T, T` and `"ijk, ilk->jl"` on `T, conj T`): read in the uniform bond
+    type `Fin n`, `gramLeft t = Σ_s T_sᴴ T_s` and `gramRight t = Σ_s T_s T_sᴴ` with `T_s = toSite n t s`. -/
+theorem c10_exec_gram (n : Nat) (t : Tensor) (ht : wellShaped t = true) (hl : leftDim t ≤ n) (hr : rightDim t ≤ n) :
+    toMat n (gramLeft t) = ∑ s : Fin t.length, (toSite n t s.val)ᴴ * toSite n t s.val ∧
+      toMat n (gramRight t) = ∑ s : Fin t.length, toSite n t s.val * (toSite n t s.val)ᴴ :=
+  ⟨toMat_gramLeft n t ht hl, toMat_gramRight n t ht hr⟩
+
+/-- **C10.26b (the exact isometry tests)** `isLeftIso t` / `isRightIso t` (the model's exact version of
+    `np.allclose(mat, eye)`) hold iff the Matrix Gram sums are the identity of the `rightDim` resp. `leftDim` block. -/
+theorem c10_exec_iso_tests (n : Nat) (t : Tensor) (ht : wellShaped t = true) (hl : leftDim t ≤ n) (hr : rightDim t ≤ n) :
+    (isLeftIso t = true ↔
+      ∑ s : Fin t.length, (toSite n t s.val)ᴴ * toSite n t s.val = toMat n (identity (rightDim t))) ∧
+    (isRightIso t = true ↔
+      ∑ s : Fin t.length, toSite n t s.val * (toSite n t s.val)ᴴ = toMat n (identity (leftDim t))) :=
+  ⟨isLeftIso_iff_matrix n t ht hl hr, isRightIso_iff_matrix n t ht hl hr⟩
+
+/-- **C10.26c** when the bond fills the uniform type (`rightDim t = n` resp. `leftDim t = n`) these are literally the
+    conditions `LeftIso` / `RightIso` of C10.10–C10.11 on the site `s ↦ toSite n t s`. -/
+theorem c10_exec_iso_tests_full (n : Nat) (t : Tensor) (ht : wellShaped t = true) (hl : leftDim t ≤ n)
+    (hr : rightDim t ≤ n) :
+    (rightDim t = n → (isLeftIso t = true ↔ Alg.LeftIso (fun s : Fin t.length => toSite n t s.val))) ∧
+    (leftDim t = n → (isRightIso t = true ↔ Alg.RightIso (fun s : Fin t.length => toSite n t s.val))) := by
+  constructor
+  · intro h
+    rw [isLeftIso_iff_matrix n t ht hl hr, h, toMat_identity]
+    rfl
+  · intro h
+    rw [isRightIso_iff_matrix n t ht hl hr, h, toMat_identity]
+    rfl
+
+/-- **C10.26d (`checkCanonicalOf`)** the exact `check_canonical_form` of the model is the truth-table function of
+    C10.12 applied to the two exact tests, so it returns exactly the sites with a left-isometric prefix and a
+    right-isometric suffix. -/
+theorem c10_exec_check_canonical (ts : List Tensor) (i : Nat) :
+    checkCanonicalOf ts = checkCanonical (ts.map isLeftIso) (ts.map isRightIso) ∧
+      (i ∈ checkCanonicalOf ts ↔ i < ts.length ∧ (∀ j, j < i → ∀ t, ts[j]? = some t → isLeftIso t = true) ∧
+        (∀ j, i < j → ∀ t, ts[j]? = some t → isRightIso t = true)) := by
+  refine ⟨rfl, ?_⟩
+  unfold checkCanonicalOf
+  rw [c10_canonical_query _ _ (by simp) i]
+  simp only [List.length_map, List.getElem?_map]
+  constructor
+  · rintro ⟨hi, h1, h2⟩
+    refine ⟨hi, fun j hj t ht => ?_, fun j hj t ht => ?_⟩
+    · have := h1 j hj
+      rw [ht] at this
+      simpa using this
+    · have hjl : j < ts.length := by
+        by_contra hcon
+        rw [List.getElem?_eq_none (by omega)] at ht
+        exact absurd ht (by simp)
+      have := h2 j hj hjl
+      rw [ht] at this
+      simpa using this
+  · rintro ⟨hi, h1, h2⟩
+    refine ⟨hi, fun j hj => ?_, fun j hj hjl => ?_⟩
+    · rw [List.getElem?_eq_getElem (by omega)]
+      simpa using h1 j hj _ (List.getElem?_eq_getElem (by omega))
+    · rw [List.getElem?_eq_getElem hjl]
+      simpa using h2 j hj _ (List.getElem?_eq_getElem hjl)
+
+/-- **C10.26e (after the executable QR shift the new site passes the left test)** list-model form of C10.10: the
+    reshape `q.reshape(phys, left, k)` followed by the flattening inside `gramLeft` is the identity, so the Gram matrix
+    of the new site is `QᴴQ`; with `QᴴQ = 1` (spec of `np.linalg.qr`, spec-tied) `isLeftIso` holds. -/
+theorem c10_exec_shift_isLeftIso (a b : Tensor) (q r : Mat) (ha : wellShaped a = true)
+    (hqr : matMul q r = flattenRows a) (hk : 1 ≤ r.length) (hq : ∀ row ∈ q, row.length = r.length)
+    (hiso : matMul (transpose (conjMat q)) q = identity r.length) :
+    gramLeft (shiftRightQR a b q r).1 = matMul (transpose (conjMat q)) q ∧ isLeftIso (shiftRightQR a b q r).1 = true := by
+  obtain ⟨_, hal, _, _⟩ := (wellShaped_iff a).mp ha
+  have hql : q.length = a.length * leftDim a := by
+    rw [← length_flattenRows a ha, ← hqr, matMul_length]
+  exact ⟨gramLeft_reshapeRows (leftDim a) a.length q hal hql, isLeftIso_shiftRightQR a b q r ha hqr hk hq hiso⟩
+
+/-- left-isometric only / both / neither, as exact list tensors (the ones the `canonT` requests of the check use) -/
+def exGTF : Tensor := [[[⟨1, 0⟩, ⟨0, 0⟩], [⟨0, 0⟩, ⟨0, 0⟩]], [[⟨0, 0⟩, ⟨1, 0⟩], [⟨0, 0⟩, ⟨0, 0⟩]]]
+def exGTT : Tensor := [[[⟨1, 0⟩, ⟨0, 0⟩], [⟨0, 0⟩, ⟨0, 0⟩]], [[⟨0, 0⟩, ⟨0, 0⟩], [⟨0, 0⟩, ⟨1, 0⟩]]]
+example : isLeftIso exGTF = true ∧ isRightIso exGTF = false ∧ isLeftIso exGTT = true ∧ isRightIso exGTT = true ∧
+    isLeftIso exT2 = false ∧ gramLeft exT2 = [[⟨6, 0⟩, ⟨0, 1⟩], [⟨0, -1⟩, ⟨7, 0⟩]] ∧
+    gramRight exT2 = [[⟨9, 0⟩, ⟨4, 2⟩], [⟨4, -2⟩, ⟨4, 0⟩]] ∧
+    checkCanonicalOf [exGTF, exGTF, exGTT, exT2] = [3] ∧ checkCanonicalOf [exT2, exGTF, exT2] = [] ∧ checkCanonicalOf [exGTF, exGTF, exT2, exGTT] = [2] ∧
+    checkCanonicalOf [exGTF, exGTT, exGTT] = [0, 1, 2] := by
+  refine ⟨by decide +kernel, by decide +kernel, by decide +kernel, by decide +kernel, by decide +kernel, by decide +kernel,
+    by decide +kernel, by decide +kernel, by decide +kernel, by decide +kernel, by decide +kernel⟩
+
+/-- a `(3,1,3)` tensor `exGa = reshape(exSu · exGr)` with `exSuᴴ exSu = 1`: the hypotheses of C10.26e hold and the new
+    site passes the exact left test, the old one does not -/
+def exGr : Mat := [[⟨1, 0⟩, ⟨2, 1⟩, ⟨0, 0⟩], [⟨0, 0⟩, ⟨1, 0⟩, ⟨1, 0⟩], [⟨0, 0⟩, ⟨0, 0⟩, ⟨3, 0⟩]]
+def exGa : Tensor := reshapeRows 1 (matMul exSu exGr)
+example : wellShaped exGa = true ∧ matMul exSu exGr = flattenRows exGa ∧
+    matMul (transpose (conjMat exSu)) exSu = identity exGr.length ∧
+    isLeftIso (shiftRightQR exGa exSb exSu exGr).1 = true ∧ isLeftIso exGa = false := by
+  refine ⟨by decide +kernel, by decide +kernel, by decide +kernel, by decide +kernel, by decide +kernel⟩
+
+/-- **C10.27 (`truncate`: which bonds, how often)** the primitive calls of `MPS.truncate(threshold, max_bond_dim)` on a
+    network whose first valid centre is `c`: nothing for one site; otherwise two-site SVDs with the caller's threshold at
+    list positions `0 … c-1`, a flip, positions `0 … len-2-c` of the flipped network, a flip.  Every event is a flip or a
+    two-site SVD at a position that has a right neighbour (a move of the form C10.23/C10.24), and replaying the flips
+    (`truncateBonds`) the SVDs act on every bond `0 … len-2` of the original chain **exactly once**. -/
+theorem c10_trace_truncate_bonds (len c : Nat) (hc : c < len) :
+    (truncateBonds len c).Perm (List.range (len - 1)) ∧
+      (∀ e ∈ truncateEv len c, e = Ev.flip ∨ ∃ i, e = Ev.svdT i ∧ i + 1 < len) ∧ truncateEv 1 c = [] :=
+  ⟨truncateBonds_perm len c hc, truncateEv_events len c hc, rfl⟩
+
+example : truncateEv 5 2 = [.svdT 0, .svdT 1, .flip, .svdT 0, .svdT 1, .flip] ∧ truncateBonds 5 2 = [0, 1, 3, 2] ∧
+    truncateBonds 4 0 = [2, 1, 0] ∧ truncateBonds 4 3 = [0, 1, 2] ∧ truncateEv 1 0 = [] := by decide
+
+/-- **C10.27c (`set_canonical_form` touches the same bonds)** replaying the flips of `setCanonEv` (`bondsOf`, `bondAt`):
+    the two sweeps of `set_canonical_form(c, "QR" | "SVD")` run their two-site primitive on the bonds `truncate` visits, in
+    the same order — `0 … c-1`, then `len-2 … c` — hence on every bond exactly once. -/
+theorem c10_trace_set_canonical_bonds (len c : Nat) (dec : String) (hdec : dec = "QR" ∨ dec = "SVD") (hc : c < len) :
+    setCanonBonds len c dec = truncateBonds len c ∧
+      bondsOf len false (setCanonEv len c dec) = List.range c ++ (List.range (len - 1 - c)).map (bondAt len true) ∧
+      (setCanonBonds len c dec).Perm (List.range (len - 1)) := by
+  refine ⟨setCanonBonds_eq_truncateBonds len c dec hdec hc, ?_, ?_⟩
+  · have := setCanonBonds_eq len c dec hdec hc
+    unfold setCanonBonds at this
+    rw [this]
+    congr 1
+  · rw [setCanonBonds_eq_truncateBonds len c dec hdec hc]
+    exact truncateBonds_perm len c hc
+
+example : setCanonBonds 5 2 "QR" = [0, 1, 3, 2] ∧ setCanonBonds 5 2 "SVD" = [0, 1, 3, 2] ∧ setCanonBonds 1 0 "QR" = [] ∧
+    bondAt 5 true 0 = 3 := by decide
+
+/-- **C10.27b (one event of `truncate` on the list model)** a two-site SVD event at list position `i` (`applyAt … i`:
+    the tensors `i`, `i+1` are replaced by `shiftRightSVD` of them) is the move of C10.24: under the SVD spec for the
+    pair found there, and when the rank rule discards nothing, the dense vector is unchanged and the chain stays
+    well-shaped; when it discards, C10.24c/d say what changes. -/
+theorem c10_exec_truncate_step (n : Nat) (hn : 0 < n) (ts : List Tensor) (i : Nat) (thr : Rat)
+    (U V : Tensor → Tensor → Mat) (S : Tensor → Tensor → List Rat) (hws : wellShapedChain n ts = true)
+    (hi : i + 1 < ts.length)
+    (h : ∀ a b, ts[i]? = some a → ts[i + 1]? = some b →
+      svdShaped n a b (U a b) (S a b) (V a b) (S a b).length = true ∧
+        matMul (U a b) (diagMulRows (S a b) (V a b)) = thetaMat a b ∧
+        Yaqs.Rank.keepTwoSite (S a b) thr none = (S a b).length) :
+    toVec (applyAt (fun a b => shiftRightSVD a b (U a b) (S a b) (V a b) thr) i ts) = toVec ts ∧
+      wellShapedChain n (applyAt (fun a b => shiftRightSVD a b (U a b) (S a b) (V a b) thr) i ts) = true := by
+  obtain ⟨pre, a, b, post, e, _, h1, h2, hap⟩ :=
+    applyAt_split (fun a b => shiftRightSVD a b (U a b) (S a b) (V a b) thr) i ts hi
+  obtain ⟨hsh, hspec, hkeep⟩ := h a b h1 h2
+  rw [hap]
+  subst e
+  exact c10_exec_svd_shift_preserves_toVec n hn pre post a b _ _ _ thr hws hsh hspec hkeep
+
+/-- C10.27b on the rational pair: the event at position 0 of the two-site chain is `shiftRightSVD` of the pair, and with
+    threshold `1/200` the dense vector is unchanged -/
+example : applyAt (fun a b => shiftRightSVD a b exSu exSs exSv (1/200)) 0 [exSa, exSb] =
+      [(shiftRightSVD exSa exSb exSu exSs exSv (1/200)).1, (shiftRightSVD exSa exSb exSu exSs exSv (1/200)).2] ∧
+    toVec (applyAt (fun a b => shiftRightSVD a b exSu exSs exSv (1/200)) 0 [exSa, exSb]) = toVec [exSa, exSb] ∧
+    toVec (applyAt (fun a b => shiftRightSVD a b exSu exSs exSv (1/50)) 0 [exSa, exSb]) ≠ toVec [exSa, exSb] := by
+  refine ⟨by decide +kernel, by decide +kernel, by decide +kernel⟩
+
+end Yaqs.Mps
+
+namespace Yaqs.Mps.Alg
+
+variable {K : Type*} [CommRing K] {ι σ : Type*} [Fintype ι] [DecidableEq ι]
+
+/-- **C10.14e** `truncate`: event list = the two-sweep fold `setCanonical` run with the two-site SVD primitive at
+    every step (same shape as `set_canonical_form(c, "SVD")`, but with the caller's threshold inside the primitive and
+    without the QR fallback; the empty list for one site is the identity fold) -/
+theorem c10_trace_truncate (d : Dec σ ι K) (c : Nat) (ts : List (Site σ ι K)) (hc : c < ts.length) :
+    runEvs d (truncateEv ts.length c) ts = setCanonical d true c ts :=
+  truncateEv_run d c ts hc
+
+/-- **C10.14f** consequently, under the untruncated two-site spec (`Dec.svd_spec`) the observed call sequence of
+    `truncate` preserves every amplitude; what a truncating call changes is C10.2b / C10.24d. -/
+theorem c10_trace_truncate_preserves (d : Dec σ ι K) (c : Nat) (ts : List (Site σ ι K)) (cfg : List σ)
+    (hc : c < ts.length) (hcfg : cfg.length = ts.length) :
+    chain (runEvs d (truncateEv ts.length c) ts) cfg = chain ts cfg := by
+  rw [truncateEv_run d c ts hc]
+  exact setCanonical_chain d true c ts cfg hc hcfg
+
+/-- instance of C10.14e/f on a three-site chain with the decomposition oracle `exDec` -/
+example : runEvs exDec (truncateEv 3 1) [exA, exB, exA] = setCanonical exDec true 1 [exA, exB, exA] ∧
+    chain (runEvs exDec (truncateEv 3 1) [exA, exB, exA]) [1, 0, 1] = chain [exA, exB, exA] [1, 0, 1] :=
+  ⟨c10_trace_truncate exDec 1 _ (by decide), c10_trace_truncate_preserves exDec 1 _ _ (by decide) (by decide)⟩
+
+end Yaqs.Mps.Alg
